@@ -1,3 +1,5 @@
+import AquaVerif.Drv.Session
+import AquaVerif.Drv.WeatherBind
 import AquaVerif.Drv.CropCalendar
 import AquaVerif.Drv.Proto
 import AquaVerif.Drv.RainPartition
@@ -74,7 +76,9 @@ def handlers : List (String × Handler) := [
   ("calendar", hCalendar),
   ("civil_range", hCivilRange),
   ("crop_calendar", hCropCalendar),
-  ("reset_calendar", hResetCalendar)
+  ("reset_calendar", hResetCalendar),
+  ("weather_bind", hWeatherBind),
+  ("session", hSession)
 ]
 
 def step (ctx : Ctx) (line : String) : Ctx × String :=
